@@ -228,29 +228,115 @@ class FnTranslator:
 
 
 def encoder_headers(fns, enums):
-    """[(module::method, rq, d, instance, CommandCode variant, back end)] for every public encoder of
-    smbus_request.rs / smbus_response.rs that builds its control header with
-    MCTPControlMessageHeader::new(<const>, <const>, <const>, CommandCode::V); raises Unsupported"""
-    out = []
+    """([(module::method, rq, d, instance, CommandCode variant, back end)], [skipped]) for every public encoder of
+    smbus_request.rs / smbus_response.rs that builds its control header with exactly one call
+    MCTPControlMessageHeader::new(<const>, <const>, <const>, CommandCode::V) and hands its data to one back end"""
+    out, skipped = [], []
     for name, params, ret, body in fns:
         m = re.match(r"(smbus_request|smbus_response)::<impl at [^>]*>::(\w+)$", name)
         if not m or "Result<usize, ()>" not in ret:
             continue
+        full = "%s::%s" % (m.group(1), m.group(2))
         calls = [l.strip() for l in body if "MCTPControlMessageHeader::<[u8; 2]>::new(" in l]
-        if not calls:
-            continue      # vendor_defined: no control header
-        if len(calls) != 1:
-            raise Unsupported("%s::%s builds %d control headers" % (m.group(1), m.group(2), len(calls)))
-        c = re.match(r"_\d+ = MCTPControlMessageHeader::<\[u8; 2\]>::new\(const (true|false), const (true|false), const (\d+)_u8, move _(\d+)\) ->", calls[0])
-        if not c:
-            raise Unsupported("%s::%s: header arguments are not constants: %s" % (m.group(1), m.group(2), calls[0][:120]))
-        var = [re.match(r"\s*_%s = (?:[\w:]+::)?CommandCode::(\w+);$" % c.group(4), l) for l in body]
-        var = [v.group(1) for v in var if v]
-        if len(var) != 1 or var[0] not in dict(enums.get("CommandCode", [])):
-            raise Unsupported("%s::%s: command code of the header is not one literal variant" % (m.group(1), m.group(2)))
         back = sorted({b for l in body for b in re.findall(r"SMBusMCTPRequestResponse>::(generate_\w+)\(", l)})
-        out.append(("%s::%s" % (m.group(1), m.group(2)), c.group(1), c.group(2), int(c.group(3)), var[0], "+".join(back)))
-    return out
+        c = re.match(r"_\d+ = MCTPControlMessageHeader::<\[u8; 2\]>::new\(const (true|false), const (true|false), const (\d+)_u8, move _(\d+)\) ->", calls[0]) if len(calls) == 1 else None
+        var = []
+        if c:
+            var = [re.match(r"\s*_%s = (?:[\w:]+::)?CommandCode::(\w+);$" % c.group(4), l) for l in body]
+            var = [v.group(1) for v in var if v]
+        if not c or len(var) != 1 or var[0] not in dict(enums.get("CommandCode", [])) or len(back) != 1:
+            skipped.append(full)
+            continue
+        out.append((full, c.group(1), c.group(2), int(c.group(3)), var[0], back[0]))
+    return out, skipped
+
+
+def encoder_data(fns):
+    """[(module::method, [element])] for every request encoder whose message data is one array literal of
+    parameters, enum parameters cast `as u8` and constants (or the empty array) handed unchanged to
+    generate_control_packet_bytes; encoders that fill their data any other way are skipped (listed in the
+    second result)."""
+    out, skipped = [], []
+    for name, params, ret, body in fns:
+        m = re.match(r"(smbus_request)::<impl at [^>]*>::(\w+)$", name)
+        if not m or "Result<usize, ()>" not in ret:
+            continue
+        full = "%s::%s" % (m.group(1), m.group(2))
+        nparams = len([x for x in params.split(", _") if x.strip()])
+        asg = {}
+        multi = set()
+        writes_into = set()
+        for l in body:
+            l = l.strip()
+            a = re.match(r"_(\d+) = (.+);$", l)
+            if a and "->" not in l:
+                if a.group(1) in asg:
+                    multi.add(a.group(1))
+                asg[a.group(1)] = a.group(2)
+            w = re.match(r"(?:\(\*)?_(\d+)\)?\[", l)
+            if w:
+                writes_into.add(w.group(1))
+        call = [l.strip() for l in body if "SMBusMCTPRequestResponse>::generate_control_packet_bytes(" in l]
+        if len(call) != 1:
+            skipped.append(full + ": no single call of generate_control_packet_bytes")
+            continue
+        args = re.search(r"generate_control_packet_bytes\((.*)\) ->", call[0]).group(1).split(", ")
+        if len(args) != 5:
+            skipped.append(full + ": unexpected argument list")
+            continue
+
+        def resolve(v, depth=0):
+            """follow copies / moves / reborrows / unsizing back to where the value was made"""
+            if depth > 20 or v in multi:
+                return None
+            if int(v) <= nparams:
+                return None if v in asg else ("param", int(v))
+            r = asg.get(v)
+            if r is None:
+                return None
+            for pat in (r"(?:copy|move) _(\d+)$", r"&\(\*_(\d+)\)$", r"&_(\d+)$", r"move _(\d+) as &\[u8\] \(PointerCoercion\(Unsize, \w+\)\)$"):
+                mm = re.match(pat, r)
+                if mm:
+                    return resolve(mm.group(1), depth + 1)
+            mm = re.match(r"move _(\d+) as u8 \(IntToInt\)$", r)
+            if mm:
+                inner = asg.get(mm.group(1), "")
+                d = re.match(r"discriminant\(_(\d+)\)$", inner)
+                if d and mm.group(1) not in multi:
+                    src = resolve(d.group(1), depth + 1)
+                    if src and src[0] == "param":
+                        return ("enumU8", src[1])
+                return None
+            c = _int_const(r)
+            if c is not None:
+                return ("const", c)
+            mm = re.match(r"\[(.*)\]$", r)
+            if mm:
+                if v in writes_into or any(re.search(r"&mut \(?\*?_%s\b" % v, l) for l in body):
+                    return None
+                inner = mm.group(1).strip()
+                rep = re.match(r"const (\d+)_u8; (\d+)$", inner)
+                if rep:
+                    return ("array", [("const", int(rep.group(1)))] * int(rep.group(2)))
+                if not inner:
+                    return ("array", [])
+                elems = []
+                for e in inner.split(", "):
+                    em = re.match(r"(?:copy|move) _(\d+)$", e)
+                    ev = resolve(em.group(1), depth + 1) if em else (("const", _int_const(e)) if _int_const(e) is not None else None)
+                    if ev is None or ev[0] == "array":
+                        return None
+                    elems.append(ev)
+                return ("array", elems)
+            return None
+
+        dm = re.match(r"(?:copy|move) _(\d+)$", args[3])
+        val = resolve(dm.group(1)) if dm else None
+        if val is None or val[0] != "array":
+            skipped.append(full + ": message data is not one array literal of parameters and constants")
+            continue
+        out.append((full, val[1]))
+    return out, skipped
 
 
 # ----------------------------------------------------------------------------- source text: bitfield! and constants
@@ -321,7 +407,7 @@ def generate():
     mir, log = emit_mir()
     L = ["/- GENERATED by checker/translate.py from /repo's working tree on every run - do not edit.",
          "   (the committed copy is the translation of the pinned tree, so that a fresh checkout builds) -/",
-         "import Mctp.Mir.Sem", "import Mctp.Model.Views", "namespace Mctp.Gen", "open Mctp.Mir", ""]
+         "import Mctp.Mir.Sem", "import Mctp.Mir.Data", "import Mctp.Model.Views", "namespace Mctp.Gen", "open Mctp.Mir", ""]
     enums = enum_consts(mir) if mir else {}
     if mir is None:
         status["mir"] = "not translated: rustc +nightly --emit=mir failed: " + log[-300:]
@@ -365,16 +451,27 @@ def generate():
     for lname, body in prog:
         L.append("def fn_%s : Fn :=\n  %s\n" % (lname, body))
     # control-header constants of the public encoders
-    try:
-        if mir is None or "CommandCode" not in enums:
-            raise Unsupported("no MIR")
-        eh = encoder_headers(fns, enums)
+    if mir is not None and "CommandCode" in enums:
+        eh, eh_skipped = encoder_headers(fns, enums)
         L.append("/-- (module::method, Rq, D, instance id, command code, back end) of every public control encoder -/")
         L.append("def encoderHeaders : List (String × Bool × Bool × Nat × CommandCode × String) := [\n%s]\n" % ",\n".join(
             '  ("%s", %s, %s, %d, .%s, "%s")' % e for e in eh))
+        L.append("def encoderHeadersSkipped : List String := [%s]\n" % ", ".join('"%s"' % x for x in eh_skipped))
         status["encoder-headers"] = "translated"
-    except Unsupported as ex:
-        status["encoder-headers"] = "not translated: " + str(ex)[:200]
+        status["encoder-headers:coverage"] = "translated (%d methods read; not read: %s)" % (len(eh), ", ".join(eh_skipped) or "none")
+    else:
+        status["encoder-headers"] = "not translated: no MIR"
+    # message data of the request encoders that build it as one array literal
+    if mir is not None:
+        ed, skipped = encoder_data(fns)
+        L.append("/-- (module::method, message data as written: parameters by MIR index, `as u8` casts of enum parameters, constants) -/")
+        L.append("def encoderData : List (String × List DataElem) := [\n%s]\n" % ",\n".join(
+            '  ("%s", [%s])' % (n, ", ".join(".%s %d" % e for e in es)) for n, es in ed))
+        L.append("def encoderDataSkipped : List String := [%s]\n" % ", ".join('"%s"' % x.split(": ")[0] for x in skipped))
+        status["encoder-data"] = "translated"
+        status["encoder-data:coverage"] = "translated (%d methods resolved; not resolved: %s)" % (len(ed), "; ".join(skipped)[:400] or "none")
+    else:
+        status["encoder-data"] = "not translated: no MIR"
     L.append("def prog : Prog := [%s]" % ", ".join("fn_" + n for n, _ in prog))
     for i, (lname, _) in enumerate(prog):
         L.append("def idx_%s : Nat := %d" % (lname, i))
